@@ -92,8 +92,10 @@ Lemma ex_roots_float :
   exists rs tr, roots_f64 tbl_1234 p1234 true = Ok (rs, tr) /\ length rs = 4%nat /\ length tr = 8%nat.
 Proof. do 2 eexists. split; [vm_compute; reflexivity | split; reflexivity]. Qed.
 
+Definition c1234 : list (cplx AF) := map (fun c => @mkC AF c 0) p1234.
+Definition cz0 : cplx AF := @mkC AF 0 0.
 Lemma ex_laguer_float :
-  exists l, laguer (FloatRA tbl_1234) (map (fun c => @mkC AF c 0) p1234) (@mkC AF 0 0) = Ok l
+  exists l, laguer (FloatRA tbl_1234) c1234 cz0 = Ok l
             /\ lwhy l = Converged /\ liters l = 4%nat.
 Proof. eexists. split; [vm_compute; reflexivity | split; reflexivity]. Qed.
 (* the first polishing call (entry 8 - 4 + 0 of the trace) exits Converged *)
